@@ -12,7 +12,9 @@ CFG = {
              "nothing; after reset the same call runs to completion (7 theorems). Tie: recorded report sequences "
              "(1e-6 slack for f32) and outcomes of Encoder::write_surface_with_progress and dds::encode over every "
              "encoder function x sizes x +-generated mipmaps x parallel on/off x pools 1..16 x completion orders x "
-             "mt/st reporter x cancellation before the call / at report k / at every k, release and checked builds.",
+             "mt/st reporter x cancellation before the call (retry after reset with a fresh and with the same Progress "
+             "value) / at report k / at every k, and x a writer that returns an I/O error at byte k of the output "
+             "(first byte .. last byte), release and checked builds.",
     "note": "Trusted: Lean kernel + propext/Classical.choice/Quot.sound; the hand-written model Progress.lean (+Split.lean); "
             "the correspondence check and its generators. f32 rounding of the real computation is outside the model "
             "(tie slack 1e-6). Real thread interleavings finer than the submission order are outside the model; "
@@ -24,7 +26,9 @@ CFG = {
             "(copy, untyped, universal, dither, sub-sampled, bi-planar, BC) x sizes (empty, 1x1 .. several chunks; BC: at "
             "the split threshold, 2 fragments, uneven last fragment, ~20 fragments, wider than a fragment) x API "
             "(Encoder / free encode) x +-generated mip chain x parallel on/off x reporter mt/st x cancellation "
-            "{never, before call + reset + retry, at report k, sweep over every k}; threads 1..16 and orders "
+            "{never, before call + reset + retry (pre: fresh Progress, pres: the same Progress value), at report k, sweep "
+            "over every k} and x failing writer {ioA/B: byte (T-1)*A/B of the T output bytes, iosweep: A/8 for A=0..8}; "
+            "threads 1..16 and orders "
             "nat/rev/rnd/free rotate; large surfaces so that every family reports more than once sequentially; PRNG "
             "parallel BC cases with random sizes/cancel points; non-trivial = the call was made (result is not "
             "bad-case/not-modelled/err); distinct = distinct case lines",
@@ -65,7 +69,7 @@ def classify(c, r):
     path = "seq" if t[9] == "0" else ("par1" if nf <= 1 else "parN")
     th = int(t[10])
     ths = "1" if th == 1 else "2-4" if th <= 4 else "5-16"
-    cancel = "k" if t[13].startswith("k") else t[13]
+    cancel = "k" if t[13].startswith("k") else "io" if t[13].startswith("io") and "/" in t[13] else t[13]
     return f"{t[1]} {fam} mips={t[8]} {path} thr={ths if path == 'parN' else '-'} {t[11] if path == 'parN' else '-'} {t[12]} cancel={cancel}"
 
 
